@@ -296,7 +296,7 @@ theorem interleaved_getD (modes : List Nat) (a : Nat) (ha : a < modes.length) :
 theorem bosonicBackendState_sorted (nlen : Nat) (modes : List Nat) (hd : modes.Nodup) (hr : ∀ m ∈ modes, m < nlen) :
     bosonicBackendState nlen modes = .ok (modes.length, interleaved (modes.mergeSort fun a b => decide (a ≤ b))) := by
   unfold bosonicBackendState
-  rw [if_neg (by simp [GaussAux.bosonicInd_any_false hr]), bosonicInd_eq modes hd]
+  rw [if_neg (by simpa using hr), bosonicInd_eq modes hd]
 
 /-- after `xpxp_to_xxpp` the data handed to thewalrus is `x` of `modes[a]` at `a`, `p` of `modes[a]` at `a + k` -/
 theorem toXXPP_interleaved (modes : List Nat) (a : Nat) (ha : a < modes.length) :
